@@ -4,7 +4,7 @@ A = 'PGProofs.'
 TABLE = {}
 
 TABLE['C01'] = dict(
-    imports=[A + 'Assembly', A + 'Glue', A + 'Bridge', A + 'MomentsThm', A + 'RewardsThm', A + 'EndToEnd'],
+    imports=[A + 'Assembly', A + 'Glue', A + 'Bridge', A + 'MomentsThm', A + 'RewardsThm', A + 'EndToEnd', A + 'EndToEnd2'],
     summary='Proved for all inputs: the generator the code builds on lineage counts is the projection of the labelled '
             'structured Lambda-coalescent (lumping + bridge), the rate matrix rows represent it, equal moments follow for '
             'any abstract exponential obeying the four laws (lump_accum), the sorted sweep of _accumulate is pointwise, '
@@ -31,10 +31,12 @@ TABLE['C01'] = dict(
         ('end_to_end_nonvacuous', 'PG.EndToEnd.moment_call_eq_labelled_exists', 'a labelled start configuration with the right counts always exists'),
         ('end_to_end_raw', 'PG.EndToEnd.raw_of_code', 'the raw conditioned accumulation of the call layer is the sweep of the code model'),
         ('end_to_end_instance', 'PG.EndToEnd.capstone_instance', 'instantiated with the real matrix exponential on a concrete model (BFS evaluated in the kernel)'),
+        ('end_to_end_with_demography', 'PG.EndToEnd.capstone_with_demography', 'CAPSTONE with the epoch list, size vectors and migration matrices produced by the demography model from the user\'s named change dictionaries (translation toEvents; config_value_is_specValue; epoch_tables_from_demography)'),
+        ('demography_value_link', 'PG.EndToEnd.config_value_is_specValue', 'the named value in force of the input glue = the value the epoch generator assigns (distinct keys per dict level)'),
     ])
 
 TABLE['C02'] = dict(
-    imports=[A + 'Corollaries', A + 'Assembly', A + 'Glue', A + 'BridgeBC', A + 'MomentsThm', A + 'RewardsThm'],
+    imports=[A + 'Corollaries', A + 'Assembly', A + 'Glue', A + 'BridgeBC', A + 'MomentsThm', A + 'RewardsThm', A + 'EndToEnd2'],
     summary='Proved for all inputs: block-counting generator = projection of the labelled coalescent on typed blocks (all three '
             'models incl. multiple mergers), matrix rows represent it, equal moments for SFS rewards; padding puts bin i at '
             'index i with zeros at 0 and n; cov is the symmetrised second moment minus the outer product of means. '
@@ -56,10 +58,12 @@ TABLE['C02'] = dict(
         ('cov_diag', 'PG.covSFS_diag', 'its diagonal is the second moment minus the squared mean'),
         ('cov_padding', 'PG.covSFS_outside_zero', 'rows/columns of the padded bins are zero'),
         ('folded_reward', 'PG.folded_eq_fold', 'folded reward = unfolded i plus unfolded n-i, once if equal'),
+        ('end_to_end_sfs', 'PG.EndToEnd.sfs_moment_call_eq_labelled', 'CAPSTONE (SFS route): the padded vector SFSDistribution.moment(k, rewards, start, end, center, permute) returns, bin by bin through CombinedReward([r, SFS_i]) on the block-counting graph, equals the padded vector of labelled typed-block combinations; all orders k'),
+        ('end_to_end_sfs_unfolded', 'PG.EndToEnd.unfolded_sfs_moment_call_eq_labelled', 'specialised to the unfolded spectrum'),
     ])
 
 TABLE['C03'] = dict(
-    imports=[A + 'TwoLocusInit', A + 'Corollaries', A + 'MeanIncrement', A + 'Assembly', A + 'Glue', A + 'Bridge', A + 'BridgeTwoLocus', A + 'RewardsThm'],
+    imports=[A + 'TwoLocusInit', A + 'Corollaries', A + 'MeanIncrement', A + 'Assembly', A + 'Glue', A + 'Bridge', A + 'BridgeTwoLocus', A + 'RewardsThm', A + 'EndToEnd2'],
     summary='Proved: cdf of the code chain = cdf of the labelled chain (lump_cdf + bridges, one and two loci); cdf in [0,1] and '
             'non-decreasing along any extension of the factor list (from the four laws); the sorted sweep and `_update` are '
             'direct evaluation, also exactly on epoch boundaries; the bisection returns m with |F m - q| <= precision. '
@@ -81,6 +85,8 @@ TABLE['C03'] = dict(
         ('quantile_spec', 'PG.quantile_spec', 'expansion + bisection: returned point has CDF within precision of q'),
         ('exit_vector', 'PG.treeHeight_zero_iff_absorbing', 'the exit vector (tree-height reward) is the indicator of non-absorbing states'),
         ('two_locus_generator', 'PG.genOf_transit_two_locus', 'two-locus generator of the code on non-absorbing states'),
+        ('end_to_end_cdf', 'PG.EndToEnd.cdf_call_eq_labelled', 'CAPSTONE (cdf route): cdf on ANY list of non-negative times (unsorted, repeated) returns entrywise the cdf of the labelled process; a negative time raises (cdf_call_error_iff)'),
+        ('end_to_end_cdf_demography', 'PG.EndToEnd.cdf_with_demography', 'with the epochs produced by the demography model'),
     ])
 
 TABLE['C04'] = dict(
@@ -117,7 +123,7 @@ TABLE['C04'] = dict(
     ])
 
 TABLE['C05'] = dict(
-    imports=[A + 'DemographyMixed', A + 'DemographyThm'],
+    imports=[A + 'DemographyMixed', A + 'DemographyThm', A + 'EndToEnd2'],
     summary='Proved on the code model of Demography.epochs: tiling of [0,inf), change times are boundaries, value in force for any '
             'number of discrete events (latest change wins, stable order on ties), lookup of get_epochs is pointwise, order '
             'independence (no conflicts), discretised endpoint mean, split orientation lemmas, and kernel-checked counterexamples '
@@ -146,10 +152,12 @@ TABLE['C05'] = dict(
         ('historic_window_end', 'PG.historic_windowEnd_counterexample', 'the pre-fix window test skipped the last step'),
         ('split_orientation', 'PG.split_orientation_counterexample', 'pinned vs documented orientation on a concrete demography'),
         ('grid_point_skipped', 'PG.grid_point_skipped', 'a grid point closer than 1e-10 to a boundary is skipped (documented limitation)'),
+        ('glue_link', 'PG.EndToEnd.epoch_tables_from_demography', 'for every epoch the generator produces from the translated user dictionaries and every time inside it, the table the transitions use equals the table read off the epoch'),
+        ('schedule_from_input', 'PG.EndToEnd.demography_schedule', 'the generated epochs tile [0, inf) with boundaries exactly at the positive change times of the input'),
     ])
 
 TABLE['C06'] = dict(
-    imports=[A + 'TwoLocusInit', A + 'Assembly', A + 'BridgeTwoLocus', A + 'Marginal', A + 'RewardsThm'],
+    imports=[A + 'TwoLocusInit', A + 'Assembly', A + 'BridgeTwoLocus', A + 'Marginal', A + 'RewardsThm', A + 'EndToEnd2'],
     summary='Proved: the two-locus chain is the lumping of the ARG particle system; each locus is a strong lumping onto the '
             'single-locus chain for EVERY recombination rate, hence equal marginal moments/cdf of every order; at r = 0 from a '
             'fully linked start the loci coincide on every reachable state, so cross moments equal second moments; locus '
@@ -169,10 +177,11 @@ TABLE['C06'] = dict(
         ('tbl_sum_of_loci', 'PG.tbl_eq_sum_tblLocus', 'total branch length reward = sum of per-locus rewards'),
         ('combined_tbl_locus', 'PG.combined_tbl_locus', 'CombinedReward([TBL, Locus l]) is the per-locus branch count'),
         ('combined_height_locus', "PG.combined_height_locus'", 'CombinedReward([TreeHeight, Locus l]) is the per-locus indicator'),
+        ('end_to_end_two_locus', 'PG.EndToEnd.two_locus_moment_call_eq_labelled', 'CAPSTONE (two loci): what moment(...) returns on the two-locus graph equals the labelled ARG combination'),
     ])
 
 TABLE['C07'] = dict(
-    imports=[A + 'Glue', A + 'DemographyThm'],
+    imports=[A + 'Glue', A + 'DemographyThm', A + 'EndToEnd2'],
     summary='Proved for every finite sequence of times, any order, any duplicates: scatter with the inverse sorting permutation '
             'after a sorted sweep returns the i-th value for the i-th time; instantiated for _accumulate, cdf and get_epochs. '
             'The pinned gather variant is refuted on [2, 1/2, 1] and characterised (correct iff the sort is an involution).',
@@ -186,6 +195,7 @@ TABLE['C07'] = dict(
         ('sorted', 'PG.sortRat_sorted', 'the sweep sees the times in ascending order'),
         ('pinned_counterexample', 'PG.gatherPinned_counterexample', 'indexing with argsort instead of its inverse is wrong on [2, 1/2, 1]'),
         ('pinned_correct_only_for_involutions', 'PG.gatherPinned_of_involutive', 'it is right when the sorting permutation is an involution (why reversed / sorted inputs hid the defect)'),
+        ('end_to_end_cdf_vector', 'PG.EndToEnd.cdf_call_entry_eq_labelled', 'entry i of a vector cdf call is the labelled cdf at times[i], whatever the other times'),
     ])
 
 TABLE['C08'] = dict(
